@@ -29,6 +29,7 @@ def gen_election(rng, family=None, maxc=7, maxb=9):
     if family == 'tinyvote': return gen_tinyvote(rng, rng.choice([1, 2]))
     if family == 'coalition': return gen_coalition(rng) if rng.random() < 0.6 else gen_multisurplus(rng)
     if family == 'multisurplus': return gen_multisurplus(rng)
+    if family == 'cotie': return gen_cotie(rng)
     if family == 'exactquota4': return gen_exact_quota(rng, 4)
     if family == 'exactquota5': return gen_exact_quota(rng, 5)
     if family == 'exactquota9': return gen_exact_quota(rng, 9)
@@ -126,6 +127,26 @@ def gen_scot_cross(rng):
     if a >= total // 2 + 1:
         lines.append((2 * a - total + 2, [rng.choice([2, 3])]))  # breaks the construction sometimes; fine
     return _finish(rng, n, seats, lines)
+
+def gen_cotie(rng):
+    """a solid coalition whose members are exactly tied (for last place, usually) when the first exclusion is due:
+    k members with t first preferences each, the other members next in rotating order; outsiders with bullet votes"""
+    k = rng.choice([2, 2, 3]); t = rng.randint(1, 3)
+    s = rng.choice([1, 1, 2])
+    members = list(range(1, k + 1))
+    lines = []
+    for i, c in enumerate(members):
+        rest = members[i + 1:] + members[:i]
+        if rng.random() < 0.3: rng.shuffle(rest)
+        tail = []
+        lines.append((t, [c] + rest + tail))
+    n = k
+    if s == 2:
+        n += 1; lines.append((k * t + rng.randint(0, 2), [n]))          # a strong outsider takes the first seat
+    nz = rng.choice([1, 1, 2])
+    for _ in range(nz):
+        n += 1; lines.append((t + rng.randint(1, max(1, (k - 1) * t - 1)), [n] + ([rng.choice(members)] if rng.random() < 0.2 else [])))
+    return _finish(rng, n, s, lines)
 
 def gen_coalition(rng):
     """a solid coalition S barely above k quotas, with one strong member (pending surplus) and weak members
